@@ -153,6 +153,9 @@ func (r *refResult) node(p string, a, b *model.Node, ow bool) *model.Node {
 					continue
 				}
 				r.Classes["pair:leaf-conflict"] = true
+				if va.K == model.KEnum && vb.K == model.KEnum && va.I == vb.I && va.ET != vb.ET {
+					r.Classes["pair:union-enum-twin-conflict"] = true
+				}
 				kind := "leaf"
 				if va.K == model.KBin && vb.K == model.KBin && !f.ElemUnion {
 					r.Classes["pair:binary-leaf-conflict"] = true
@@ -398,6 +401,26 @@ func enumTwin(f *model.FieldInfo, v model.Val) (model.Val, bool) {
 	return model.Val{}, false
 }
 
+// anyEnumTwinPair returns some pair of members of two different enumerations of a union leaf that have the
+// same Go value.
+func anyEnumTwinPair(f *model.FieldInfo) (model.Val, model.Val, bool) {
+	if f.Type == nil || len(f.Type.Members) < 2 {
+		return model.Val{}, model.Val{}, false
+	}
+	for _, m := range f.Type.Members {
+		if m.GoEnum == nil {
+			continue
+		}
+		for _, em := range m.Enum {
+			v := model.Val{K: model.KEnum, I: em.GoVal, S: em.Name, Mod: em.Mod, ET: m.GoEnum, Ident: m.Ident}
+			if tw, ok := enumTwin(f, v); ok {
+				return v, tw, true
+			}
+		}
+	}
+	return model.Val{}, model.Val{}, false
+}
+
 // fw scales the weight of an overlapping role of a list of kind k.
 func (s *splitter) fw(k model.FKind, x int) int {
 	if s.hasFocus && s.focus == k {
@@ -495,8 +518,14 @@ func (s *splitter) node(m *model.Node, keyLeaves map[string]bool, depth int) (*m
 				wConf = 15 // the conflict boundary of binary leaves is a class of its own
 			}
 			twin, hasTwin := enumTwin(f, v)
+			if !hasTwin && wConf > 0 {
+				// the union has such a pair at all: use it for both sides (the base value is replaced)
+				if ta, tb, ok := anyEnumTwinPair(f); ok {
+					v, twin, hasTwin = ta, tb, true
+				}
+			}
 			if hasTwin && wConf > 0 {
-				wConf = 15 // a member of ANOTHER enumeration of the union with the same Go value: a class of its own
+				wConf = 40 // a member of ANOTHER enumeration of the union with the same Go value: a class of its own
 			}
 			switch s.pick("leaf", 30, 30, s.bw(25), wConf) {
 			case 0:
